@@ -2,7 +2,6 @@ package mempoolrig
 
 import (
 	"fmt"
-	"os"
 	"math/big"
 
 	"github.com/lianxiangcloud/linkchain/libs/common"
@@ -125,14 +124,11 @@ func (e *Engine) prune() {
 			}
 		}
 		if mc.RemoveFutureTx {
-			if ns := e.sortedNonces(a); len(ns) > mc.AccountQueue {
-				// the per-account queue cap may drop the highest nonces
-				fs := e.futureSet(a)
-				if os.Getenv("MPDBG") != "" {
-					fmt.Println("DBG prune", e.steps, ns, len(fs), len(e.offeredBy[a]))
-				}
-				if len(fs) > mc.AccountQueue {
-					for _, m := range fs[mc.AccountQueue:] {
+			// the per-account queue cap may drop the highest nonces of what
+			// the node has queued for this account
+			if fs := e.futureSet(a); len(fs) > mc.AccountQueue {
+				for _, m := range fs[mc.AccountQueue:] {
+					if m.Accepted {
 						e.C.Probe("excused-account-queue")
 						e.dropLive(m)
 					}
@@ -159,22 +155,8 @@ func (e *Engine) mustOffer(a common.Address) (run []*MTx, ambiguous bool) {
 		m := l[0]
 		if bal.Cmp(m.Cost) < 0 {
 			e.C.Probe("invalidated-uncovered")
+			m.Uncovered = true
 			e.dropLive(m)
-			// what queues behind it right now is exposed to the node's
-			// promotion loop at the moment the uncovered one is tried
-			off := map[common.Hash]bool{}
-			for _, tx := range e.offeredBy[a] {
-				off[tx.Hash()] = true
-			}
-			for hn, l := range e.live[a] {
-				if hn > n {
-					for _, x := range l {
-						if !off[x.Hash] {
-							x.BehindFailed = true
-						}
-					}
-				}
-			}
 			return run, false
 		}
 		bal.Sub(bal, m.Cost)
@@ -198,6 +180,8 @@ func (e *Engine) oracle(heavy bool) {
 	if e.Stopped() {
 		return
 	}
+	e.heldCleanup(e.sinceCommit, false)
+	e.sinceCommit = false
 	e.prune()
 	mc := e.W.Cfg.Mem
 
@@ -230,19 +214,43 @@ func (e *Engine) oracle(heavy bool) {
 	if full {
 		e.C.Probe("pool-full")
 	}
+	type demand struct {
+		must []*MTx
+		amb  bool
+	}
+	demands := make([]demand, len(e.W.Users))
+	for i, u := range e.W.Users {
+		demands[i].must, demands[i].amb = e.mustOffer(u.Addr)
+	}
+	// what queues behind a transaction the node still holds although it was
+	// uncovered at its turn is exposed to the promotion loop's treatment of a
+	// failed member (see the known finding)
 	for _, u := range e.W.Users {
-		must, amb := e.mustOffer(u.Addr)
-		if amb {
+		fs := e.futureSet(u.Addr)
+		for _, x := range fs {
+			if !x.Uncovered {
+				continue
+			}
+			for _, y := range fs {
+				if y.Nonce > x.Nonce {
+					y.BehindFailed = true
+				}
+			}
+		}
+		if len(fs) > 0 {
+			e.C.Probe("future-queue-nonempty")
+		}
+	}
+	e.heldCleanup(false, true)
+	for i := range e.W.Users {
+		if demands[i].amb {
 			e.C.Probe("ambiguous-same-nonce")
 			continue
-		}
-		if len(e.futureSet(u.Addr)) > 0 {
-			e.C.Probe("future-queue-nonempty")
 		}
 		if !e.Opt.Liveness {
 			continue
 		}
-		for _, m := range must {
+		for _, m := range demands[i].must {
 			if off[m.Hash] {
 				continue
 			}
@@ -257,6 +265,7 @@ func (e *Engine) oracle(heavy bool) {
 			if !e.Violate("not-offered", key, "u%d nonce %d (%s) was accepted %dms ago, is contiguous from the committed nonce %d, covered by the balance, no size or age limit is in reach (offer %d of size %d, live %d of future %d), yet Reap does not offer it", m.User, m.Nonce, short(m.Hash), (e.now()-m.AcceptedAt).Milliseconds(), e.committedNonce(m.From), len(e.offered), mc.Size, e.liveCount(), mc.FutureSize) {
 				// listed finding: the node has lost it; go on without it
 				e.dropLive(m)
+				delete(e.held[m.From], m.Hash)
 				break
 			}
 			return
